@@ -319,3 +319,32 @@ Theorem C05_source_no_recursion :
           ["children"; "parents"; "parent"; "linux.ppid_map"]%string = true.
 Proof. exact source_no_recursion. Qed.
 Print Assumptions C05_source_no_recursion.
+
+(* ---------------------------------------------------------------- copies of a Process object
+   copy.copy(p) is a shallow copy ([copy_obj]: same pid, same identity -- as an option --, same
+   create_time() cache): another handle on the SAME incarnation.  copy.deepcopy / pickle create
+   no object in the code as it is (TypeError: the object holds an RLock). *)
+Theorem C05_copy_same_answers : forall fx t gone goneb cache fuel o,
+  ident_opt (copy_obj o) = ident_opt o /\ o_ctime (copy_obj o) = o_ctime o /\
+  children_direct fx t gone (copy_obj o) = children_direct fx t gone o /\
+  children_rec fx fuel t gone (copy_obj o) = children_rec fx fuel t gone o /\
+  parent fx t gone cache (copy_obj o) = parent fx t gone cache o /\
+  parents fx fuel t gone goneb cache (copy_obj o) = parents fx fuel t gone goneb cache o.
+Proof. exact copy_same_answers. Qed.
+Print Assumptions C05_copy_same_answers.
+
+(* the copy of a STALE original raises NoSuchProcess like the original: it never describes the
+   tree around the new owner of the PID *)
+Theorem C05_copy_of_stale_raises : forall t gone goneb cache fuel o, recycled_b t o = true ->
+  children_direct as_is t gone (copy_obj o) = Exc NoSuchProcess /\
+  children_rec as_is fuel t gone (copy_obj o) = Exc NoSuchProcess /\
+  parent as_is t gone cache (copy_obj o) = Exc NoSuchProcess /\
+  parents as_is fuel t gone goneb cache (copy_obj o) = Exc NoSuchProcess.
+Proof. exact copy_of_stale_raises. Qed.
+Print Assumptions C05_copy_of_stale_raises.
+
+Theorem C05_no_deep_copy : forall o,
+  copy_result DeepCopy o = Exc TypeError /\ copy_result PickleRoundTrip o = Exc TypeError /\
+  copy_result ShallowCopy o = Val o.
+Proof. exact no_deep_copy. Qed.
+Print Assumptions C05_no_deep_copy.
